@@ -107,6 +107,30 @@ class Clock:
         return t
 
 
+class ShortReads:
+    """a stream whose read(n) may return FEWER than n bytes before the end of the data (raw files, pipes, sockets): only b'' means EOF"""
+
+    def __init__(self, data, pattern=(3, 1, 1000, 2)):
+        self._data, self._pos, self._pattern, self._k = data, 0, pattern, 0
+
+    def read(self, n=-1):
+        left = len(self._data) - self._pos
+        if n is None or n < 0:
+            n = left
+        k = min(n, left, self._pattern[self._k % len(self._pattern)])
+        self._k += 1
+        out = self._data[self._pos:self._pos + k]
+        self._pos += k
+        return out
+
+    def seek(self, pos, whence=0):
+        self._pos = {0: pos, 1: self._pos + pos, 2: len(self._data) + pos}[whence]
+        return self._pos
+
+    def tell(self):
+        return self._pos
+
+
 async def scenario(names, prefix, tokens, payload, chunk_size, host='objects.example.test', scheme='https'):
     problems, seen = [], []
     s3c.datetime = Clock().cls
@@ -136,6 +160,7 @@ async def scenario(names, prefix, tokens, payload, chunk_size, host='objects.exa
         await c.exists(n)
         await c.upload(n, payload)
         await c.upload_stream(n, io.BytesIO(payload), len(payload), chunk_size)
+        await c.upload_stream(n, ShortReads(payload), len(payload), chunk_size)
         await c.download(n)
         await c.download_stream(n, io.BytesIO(), chunk_size)
         await c.delete(n)
